@@ -8,6 +8,7 @@ import (
 	"errors"
 	"fmt"
 	"strconv"
+	"strings"
 )
 
 // Kind of a value.
@@ -116,14 +117,20 @@ func (v Value) String() string {
 		if v.Null {
 			return "*nil"
 		}
-		s := "["
+		var sb strings.Builder
+		sb.WriteString("[")
 		for i, e := range v.A {
 			if i > 0 {
-				s += " "
+				sb.WriteString(" ")
 			}
-			s += e.String()
+			if i == 24 && len(v.A) > 32 {
+				fmt.Fprintf(&sb, "...(%d elements)", len(v.A))
+				break
+			}
+			sb.WriteString(e.String())
 		}
-		return s + "]"
+		sb.WriteString("]")
+		return sb.String()
 	}
 	return "?"
 }
